@@ -6,8 +6,9 @@
  * sqfs_meta_reader_read(m, data, size): asserts that [data, data+size) is
  *   writable, then either returns a negative error (any call may fail: the
  *   image may end anywhere) or fills exactly `size` unconstrained bytes.
- *   Reads larger than VP_META_MAXRD fail (stated bound) and at most
- *   VP_META_MAXCALLS reads succeed (bounds loops that are driven by on-disk
+ *   Reads larger than VP_META_MAXRD fail (stated bound) and only the
+ *   first VP_META_MAXCALLS read attempts can succeed (the attempt counter is
+ *   a constant on every path, which keeps the bound visible to symex) (bounds loops that are driven by on-disk
  *   counts).
  * Every byte sequence any real image can deliver is a behaviour of this stub.
  */
@@ -15,6 +16,7 @@
 #define VP_META_STUB_H
 #include "vp.h"
 #include "sqfs/meta_reader.h"
+#include "sqfs/inode.h"
 #include "sqfs/error.h"
 
 #ifndef VP_META_MAXRD
@@ -24,7 +26,7 @@
 #define VP_META_MAXCALLS 6
 #endif
 
-static unsigned vp_meta_reads, vp_meta_seeks;
+static unsigned vp_meta_reads, vp_meta_seeks, vp_meta_calls;
 static sqfs_u64 vp_meta_pos_block;
 static size_t vp_meta_pos_off;
 struct sqfs_meta_reader_t { sqfs_object_t base; int dummy; };
@@ -46,13 +48,39 @@ int sqfs_meta_reader_read(sqfs_meta_reader_t *m, void *data, size_t size)
 	size_t i;
 	(void)m;
 	VP_ASSERT(VP_W_OK(data, size), "metadata read: destination buffer holds the requested number of bytes");
-	if (size > VP_META_MAXRD || vp_meta_reads >= VP_META_MAXCALLS || ND_BOOL())
+	vp_meta_calls++;
+#if defined(VP_META_FORCE_U16) && VP_CBMC
+	/* shape selection, part 1: the inode type word is stored (typed constant)
+	   BEFORE the failure decision of the first read, so that the value is the
+	   same constant on both branches and survives the merge at the function
+	   end (symex does not use path conditions to simplify merged values).
+	   Leaving data in the destination of a failed read is within the contract:
+	   the real reader copies partial data before it fails. */
+	if (vp_meta_calls == 1 && size == sizeof(sqfs_inode_t))
+		((sqfs_inode_t *)data)->type = (VP_META_FORCE_U16);
+#endif
+	if (size > VP_META_MAXRD || vp_meta_calls > VP_META_MAXCALLS || ND_BOOL())
 		return SQFS_ERROR_OUT_OF_BOUNDS;
 	vp_meta_reads++;
 #if VP_CBMC
 	/* unconstrained content; a byte-wise loop of nondet writes into typed
 	   structs costs minutes, havoc_slice is the engine primitive for this */
 	(void)i;
+#ifdef VP_META_FORCE_U16
+	if (vp_meta_calls == 1 && size == sizeof(sqfs_inode_t)) {
+		/* the base inode, field by field (typed nondet values): a typed store
+		   into a havoc'ed slice is not constant-propagated by symex */
+		sqfs_inode_t *b = data;
+		b->type = (VP_META_FORCE_U16); b->mode = ND_U16(); b->uid_idx = ND_U16(); b->gid_idx = ND_U16();
+		b->mod_time = ND_U32(); b->inode_number = ND_U32();
+	} else
+#endif
+#ifdef VP_META_NOFILL_ABOVE
+	/* shape restriction: reads longer than this (names, never interpreted by
+	   the function under test) are only CHECKED for a large enough destination;
+	   the destination keeps its previous content */
+	if (size > (VP_META_NOFILL_ABOVE)) { } else
+#endif
 	__CPROVER_havoc_slice(data, size);
 #else
 	for (i = 0; i < VP_META_MAXRD; ++i) {
@@ -64,14 +92,14 @@ int sqfs_meta_reader_read(sqfs_meta_reader_t *m, void *data, size_t size)
 	/* shape restriction for the extended-directory index obligation: the name
 	   length word of an index entry (3rd, 5th ... read, u32 at offset 8) is
 	   confined to a window of 8 values around the growth boundary */
-	if (size == 12 && vp_meta_reads >= 3)
+	if (size == 12 && vp_meta_calls >= 3)
 		((unsigned int *)data)[2] = (VP_META_EXTDIR_ENTSIZE_BASE) + (ND_U32() & 7);
 #endif
 #ifdef VP_META_FORCE_U16
 	/* shape selection: the first 16 bit word of the first read (the inode
 	   type) is fixed by the obligation through a TYPED store so that symbolic
 	   execution prunes the other branches; everything else stays symbolic */
-	if (vp_meta_reads == 1 && size >= 2)
+	if (vp_meta_calls == 1 && size >= 2)
 		*(unsigned short *)data = (VP_META_FORCE_U16);
 #endif
 	vp_meta_pos_off += size;
